@@ -2144,3 +2144,652 @@ Proof.
     as [sl2 [lv2 [vals2 [nl2 [ms2 [top2 [B1 [B2 [_ [_ [_ [_ [_ [_ B9]]]]]]]]]]]]]].
   rewrite A1 in B1. inversion B1; subst sl2 lv2. rewrite A2 in B2. inversion B2; subst vals2. exact (B9 eq_refl).
 Qed.
+
+(* ======================================================================== *)
+(* Part 7: DEHB bracket manager                                              *)
+(* ======================================================================== *)
+
+Definition dslot_ok (s : slot) : Prop :=
+  match s with (None, None) => True | (Some _, Some _) => True | _ => False end.
+
+Record dcur_ok (sl : list slot) (ffp : nat) : Prop := mkDCurOk {
+  dco_ffp : (ffp <= length sl)%nat;
+  dco_free : forall pos s, (ffp <= pos)%nat -> nth_error sl pos = Some s -> s = (None, None);
+  dco_open : exists pos, nth_error sl pos = Some (None, None);
+  dco_slots : Forall dslot_ok sl }.
+
+Record DB (sys : rung_system) (md : mode) (b : bracket) : Prop := mkDB {
+  db_sys : map entry_shape (rungs b) = sys;
+  db_mode : bmode b = md;
+  db_cur : (current_rung b <= length (rungs b))%nat;
+  db_filled : forall k e, nth_error (rungs b) k = Some e -> exists sl lv, e = Filled sl lv;
+  db_done : forall k sl lv, (k < current_rung b)%nat -> nth_error (rungs b) k = Some (Filled sl lv) ->
+            Forall (fun s => exists t v, s = (Some t, Some v)) sl;
+  db_fut : forall k sl lv, (current_rung b < k)%nat -> nth_error (rungs b) k = Some (Filled sl lv) ->
+           (1 <= length sl)%nat /\ Forall (fun s => s = (None, None)) sl;
+  db_open : forall sl lv, nth_error (rungs b) (current_rung b) = Some (Filled sl lv) ->
+            dcur_ok sl (first_free_pos b);
+  db_closed : current_rung b = length (rungs b) -> first_free_pos b = 0%nat }.
+
+Lemma db_crl : forall sys md b, DB sys md b -> is_bracket_complete b = false ->
+  exists sl lv, current_rung_and_level b = Ok (sl, lv).
+Proof.
+  intros sys md b B NC. unfold is_bracket_complete in NC. apply Nat.leb_gt in NC.
+  destruct (nth_error (rungs b) (current_rung b)) as [e|] eqn:E.
+  - destruct (db_filled _ _ _ B _ _ E) as [sl [lv ->]]. exists sl, lv. apply crl_of_nth. exact E.
+  - apply nth_error_None in E. lia.
+Qed.
+
+Lemma db_cur_ok : forall sys md b sl lv, DB sys md b -> current_rung_and_level b = Ok (sl, lv) ->
+  dcur_ok sl (first_free_pos b).
+Proof. intros sys md b sl lv B C. destruct (crl_inv _ _ _ C) as [N _]. exact (db_open _ _ _ B _ _ N). Qed.
+
+Lemma map_shape_dehb : forall rs : rung_system,
+  map entry_shape (map (fun x => Filled (repeat ((None, None) : slot) (fst x)) (snd x)) rs) = rs.
+Proof. induction rs as [|[a b] r IH]; simpl; [reflexivity|]. rewrite repeat_length, IH. reflexivity. Qed.
+
+Lemma forall_repeat : forall {A} (P : A -> Prop) x n, P x -> Forall P (repeat x n).
+Proof. intros A P x n H. apply Forall_forall. intros y Hy. apply repeat_spec in Hy. subst. exact H. Qed.
+
+Lemma db_new : forall sys md, check_rungs sys = true -> DB sys md (dehb_new_bracket sys md).
+Proof.
+  intros sys md CK. destruct (check_rungs_spec _ CK) as [NE [Pos _]]. unfold dehb_new_bracket.
+  assert (Ent : forall k e, nth_error (map (fun x => Filled (repeat ((None, None) : slot) (fst x)) (snd x)) sys) k = Some e ->
+            exists n lv, nth_error sys k = Some (n, lv) /\ e = Filled (repeat (None, None) n) lv).
+  { intros k e H. rewrite nth_error_map in H. destruct (nth_error sys k) as [[n lv]|] eqn:E; [|discriminate].
+    inversion H. eauto. }
+  constructor; cbn [rungs current_rung first_free_pos bmode].
+  - apply map_shape_dehb.
+  - reflexivity.
+  - lia.
+  - intros k e H. destruct (Ent _ _ H) as [n [lv [_ ->]]]. eauto.
+  - intros k sl lv Hk. lia.
+  - intros k sl lv Hk H. destruct (Ent _ _ H) as [n [lv' [Hs E]]]. inversion E; subst.
+    rewrite repeat_length. split; [eapply Pos; eauto|]. apply forall_repeat. reflexivity.
+  - intros sl lv H. destruct (Ent _ _ H) as [n [lv' [Hs E]]]. inversion E; subst.
+    assert (1 <= n)%nat by (eapply Pos; eauto). constructor.
+    + lia.
+    + intros pos s _ N. apply nth_error_repeat in N. exact N.
+    + exists 0%nat. destruct n; [lia|]. reflexivity.
+    + apply forall_repeat. exact I.
+  - rewrite map_length. intros H. destruct sys; [congruence|discriminate].
+Qed.
+
+Lemma db_bump : forall sys md b sl lv, DB sys md b ->
+  current_rung_and_level b = Ok (sl, lv) -> (first_free_pos b < length sl)%nat -> DB sys md (bump b).
+Proof.
+  intros sys md b sl lv B C L. destruct (crl_inv _ _ _ C) as [N _].
+  destruct B as [B1 B2 B3 B4 B5 B6 B7 B8].
+  constructor; cbn [bump rungs current_rung first_free_pos bmode]; auto.
+  - intros sl' lv' N'. rewrite N in N'. inversion N'; subst sl' lv'.
+    destruct (B7 _ _ N) as [C1 C2 C3 C4]. constructor; auto. intros pos s Hp. apply C2. lia.
+  - intro Hc. apply nth_error_lt in N. lia.
+Qed.
+
+(* what an accepted result does to a DEHB bracket *)
+Lemma dbor_inv : forall b r sl lv b' out,
+  current_rung_and_level b = Ok (sl, lv) ->
+  dehb_bracket_on_result b r = Ok (b', out) ->
+  rung_index r = current_rung b /\ (slot_index r < first_free_pos b)%nat /\ level r = lv /\
+  (exists t0, nth_error sl (slot_index r) = Some (t0, None)) /\
+  exists v, metric_val r = Some v /\
+  let sl' := upd sl (slot_index r) (trial_id r, Some v) in
+  let rungs1 := upd (rungs b) (current_rung b) (Filled sl' lv) in
+  ( (is_full sl' (first_free_pos b) = false /\
+     b' = mkB (bmode b) (first_free_pos b) (current_rung b) rungs1 /\ out = None)
+  \/ (is_full sl' (first_free_pos b) = true /\
+     b' = mkB (bmode b) 0 (S (current_rung b)) rungs1 /\
+     out = if Nat.leb (length rungs1) (S (current_rung b)) then None else Some [])).
+Proof.
+  intros b r sl lv b' out C H. unfold dehb_bracket_on_result in H. rewrite C in H.
+  destruct (Nat.eqb (rung_index r) (current_rung b)) eqn:E1; simpl in H; [|discriminate].
+  apply Nat.eqb_eq in E1.
+  destruct (Nat.ltb (slot_index r) (first_free_pos b)) eqn:E2; simpl in H; [|discriminate].
+  apply Nat.ltb_lt in E2.
+  destruct (Z.eqb (level r) lv) eqn:E3; simpl in H; [|discriminate]. apply Z.eqb_eq in E3.
+  destruct (nth_error sl (slot_index r)) as [[t0 mv0]|] eqn:E4; [|discriminate].
+  destruct mv0 as [?|]; [discriminate|].
+  destruct (metric_val r) as [v|] eqn:E6; [|discriminate].
+  split; [exact E1|]. split; [exact E2|]. split; [exact E3|]. split; [eauto|].
+  exists v. split; [reflexivity|]. cbv zeta.
+  set (sl' := upd sl (slot_index r) (trial_id r, Some v)) in *.
+  set (rungs1 := upd (rungs b) (current_rung b) (Filled sl' lv)) in *.
+  fold (is_full sl' (first_free_pos b)) in H.
+  destruct (is_full sl' (first_free_pos b)) eqn:F.
+  - unfold is_bracket_complete in H. cbn [rungs current_rung] in H.
+    destruct (Nat.leb (length rungs1) (S (current_rung b))); inversion H; subst; right; auto.
+  - inversion H; subst. left. auto.
+Qed.
+
+Lemma dbor_ok : forall b r sl lv t0 v,
+  current_rung_and_level b = Ok (sl, lv) ->
+  rung_index r = current_rung b -> (slot_index r < first_free_pos b)%nat -> level r = lv ->
+  nth_error sl (slot_index r) = Some (t0, None) -> metric_val r = Some v ->
+  exists b' out, dehb_bracket_on_result b r = Ok (b', out).
+Proof.
+  intros b r sl lv t0 v C E1 E2 E3 E4 E6. unfold dehb_bracket_on_result. rewrite C.
+  apply Nat.eqb_eq in E1. rewrite E1. apply Nat.ltb_lt in E2. rewrite E2. simpl.
+  apply Z.eqb_eq in E3. rewrite E3. simpl. rewrite E4, E6.
+  match goal with |- context [if ?c then _ else _] => destruct c end; [|eauto].
+  match goal with |- context [if ?c then _ else _] => destruct c end; eauto.
+Qed.
+
+Lemma db_answer : forall sys md b b' r sl lv out t,
+  DB sys md b -> current_rung_and_level b = Ok (sl, lv) ->
+  dehb_bracket_on_result b r = Ok (b', out) -> trial_id r = Some t -> DB sys md b'.
+Proof.
+  intros sys md b b' r sl lv out t B C R T.
+  destruct (dbor_inv _ _ _ _ _ _ C R) as [E1 [E2 [E3 [[t0 N] [v [MV Cases]]]]]]. rewrite T in Cases. cbv zeta in Cases.
+  destruct (crl_inv _ _ _ C) as [Nth NC].
+  assert (Lc : (current_rung b < length (rungs b))%nat) by (eapply nth_error_lt; eauto).
+  assert (CO := db_cur_ok _ _ _ _ _ B C).
+  set (sl' := upd sl (slot_index r) (Some t, Some v)) in *.
+  assert (LEN : length sl' = length sl) by apply upd_length.
+  assert (Slots' : Forall dslot_ok sl').
+  { apply Forall_forall. intros s Hs. apply In_upd in Hs. destruct Hs as [->|Hs]; [exact I|].
+    assert (X := dco_slots _ _ CO). rewrite Forall_forall in X. exact (X _ Hs). }
+  destruct B as [B1 B2 B3 B4 B5 B6 B7 B8].
+  assert (Get : forall k e, nth_error (upd (rungs b) (current_rung b) (Filled sl' lv)) k = Some e ->
+            (k = current_rung b /\ e = Filled sl' lv) \/ (k <> current_rung b /\ nth_error (rungs b) k = Some e)).
+  { intros k e H. apply nth_error_upd in H. destruct H as [[<- ->]|[Nq H]]; [left; auto|right; split; [congruence|exact H]]. }
+  assert (Sys1 : map entry_shape (upd (rungs b) (current_rung b) (Filled sl' lv)) = sys).
+  { rewrite (upd_same_map entry_shape _ _ _ _ Nth); [exact B1|]. simpl. rewrite LEN. reflexivity. }
+  assert (Fill1 : forall k e, nth_error (upd (rungs b) (current_rung b) (Filled sl' lv)) k = Some e -> exists sl0 lv0, e = Filled sl0 lv0).
+  { intros k e H. destruct (Get _ _ H) as [[_ ->]|[_ H']]; eauto. }
+  destruct Cases as [[F [-> _]]|[F [-> _]]].
+  - constructor; cbn [rungs current_rung first_free_pos bmode]; auto.
+    + rewrite upd_length. exact B3.
+    + intros k sl0 lv0 Hk H. destruct (Get _ _ H) as [[-> _]|[_ H']]; [lia|eauto].
+    + intros k sl0 lv0 Hk H. destruct (Get _ _ H) as [[-> _]|[_ H']]; [lia|eauto].
+    + intros sl0 lv0 H. rewrite nth_error_upd_eq in H by exact Lc. inversion H; subst sl0 lv0.
+      assert (Free' : forall pos s, (first_free_pos b <= pos)%nat -> nth_error sl' pos = Some s -> s = (None, None)).
+      { intros pos s Hp Hs. unfold sl' in Hs. rewrite nth_error_upd_neq in Hs by lia. eapply (dco_free _ _ CO); eauto. }
+      constructor; auto.
+      * rewrite ?LEN; unfold sl'; rewrite ?upd_length; exact (dco_ffp _ _ CO).
+      * destruct (not_full_spec sl' (first_free_pos b)) as [pos [t1 Hp]]; auto.
+        { rewrite ?LEN; unfold sl'; rewrite ?upd_length; exact (dco_ffp _ _ CO). }
+        { intros pos s Hp Hs. rewrite (Free' _ _ Hp Hs). reflexivity. }
+        exists pos. rewrite Forall_forall in Slots'. assert (X := Slots' _ (nth_error_In _ _ Hp)).
+        destruct t1; [contradiction|exact Hp].
+    + rewrite upd_length. intro Hc. lia.
+  - assert (Full : Forall (fun s => exists t1 v1, s = (Some t1, Some v1)) sl').
+    { destruct (is_full_spec _ _ F) as [_ Occ]. apply Forall_forall. intros [t1 [v1|]] Hs.
+      - rewrite Forall_forall in Slots'. assert (X := Slots' _ Hs). destruct t1; [eauto|contradiction].
+      - exfalso. apply (Occ _ Hs). reflexivity. }
+    constructor; cbn [rungs current_rung first_free_pos bmode]; auto.
+    + rewrite upd_length. lia.
+    + intros k sl0 lv0 Hk H. destruct (Get _ _ H) as [[-> E]|[Nq H']].
+      * inversion E; subst. exact Full.
+      * eapply B5; [|exact H']. lia.
+    + intros k sl0 lv0 Hk H. destruct (Get _ _ H) as [[-> _]|[_ H']]; [lia|]. eapply B6; [|exact H']. lia.
+    + intros sl0 lv0 H. rewrite nth_error_upd_neq in H by lia.
+      destruct (B6 _ _ _ (Nat.lt_succ_diag_r _) H) as [L1 Fn]. rewrite Forall_forall in Fn. constructor.
+      * lia.
+      * intros pos s _ Hs. apply Fn. eapply nth_error_In; eauto.
+      * exists 0%nat. destruct sl0 as [|x sl0]; [simpl in L1; lia|]. simpl. rewrite (Fn x (or_introl eq_refl)). reflexivity.
+      * apply Forall_forall. intros s Hs. rewrite (Fn _ Hs). exact I.
+Qed.
+
+Definition nfs_good (b : bracket) : Prop :=
+  (next_free_slot b = Ok (b, None) /\ has_free_slot b = false) \/
+  (exists sl lv t0, current_rung_and_level b = Ok (sl, lv) /\
+     nth_error sl (first_free_pos b) = Some (t0, None) /\ has_free_slot b = true /\
+     next_free_slot b = Ok (bump b, Some (mkSIR (current_rung b) lv (first_free_pos b) t0 None))).
+
+Lemma nfs_db : forall sys md b, DB sys md b -> nfs_good b.
+Proof.
+  intros sys md b B. unfold nfs_good, has_free_slot, next_free_slot.
+  destruct (is_bracket_complete b) eqn:E; [left; auto|].
+  destruct (db_crl _ _ _ B E) as [sl [lv C]]. rewrite C.
+  destruct (nth_error sl (first_free_pos b)) as [[t0 mv]|] eqn:N; [|left; auto].
+  assert (CO := db_cur_ok _ _ _ _ _ B C).
+  assert (X := dco_free _ _ CO _ _ (le_n _) N). inversion X; subst.
+  right. exists sl, lv, None. auto.
+Qed.
+
+Lemma try_spec_gen : forall bs len p,
+  (forall i, (p <= i < p + len)%nat -> exists b, nth_error bs i = Some b /\ nfs_good b) ->
+  (try_brackets bs (seq p len) = Ok None /\
+   forall i b, (p <= i < p + len)%nat -> nth_error bs i = Some b -> has_free_slot b = false) \/
+  (exists i b sl lv t0, (p <= i < p + len)%nat /\ nth_error bs i = Some b /\
+     current_rung_and_level b = Ok (sl, lv) /\
+     nth_error sl (first_free_pos b) = Some (t0, None) /\ has_free_slot b = true /\
+     (forall j bj, (p <= j < i)%nat -> nth_error bs j = Some bj -> has_free_slot bj = false) /\
+     try_brackets bs (seq p len) =
+       Ok (Some (upd bs i (bump b), i, mkSIR (current_rung b) lv (first_free_pos b) t0 None))).
+Proof.
+  intros bs. induction len as [|len IH]; intros p H; simpl.
+  - left. split; [reflexivity|]. intros i b Hi. lia.
+  - destruct (H p) as [b [Nb Gb]]; [lia|]. rewrite Nb.
+    destruct Gb as [[E HF]|[sl [lv [t0 [C [N [HF E]]]]]]]; rewrite E.
+    + destruct (IH (S p)) as [[E2 A]|[i2 [b2 [sl2 [lv2 [t2 [I2 [N2 [C2 [S2 [HF2 [Low E2]]]]]]]]]]]].
+      * intros j Hj. apply H. lia.
+      * left. split; [exact E2|]. intros j bj Hj Nj. destruct (Nat.eq_dec j p) as [->|NE]; [congruence|].
+        apply (A j); [lia|exact Nj].
+      * right. exists i2, b2, sl2, lv2, t2. repeat split; auto; try lia.
+        intros j bj Hj Nj. destruct (Nat.eq_dec j p) as [->|NE]; [congruence|]. apply (Low j); [lia|exact Nj].
+    + right. exists p, b, sl, lv, t0. repeat split; auto; try lia.
+Qed.
+
+(* outstanding jobs point to handed-out slots without a value of the rung being filled *)
+Definition out_ok (bs : list bracket) (j : job) : Prop :=
+  exists b sl lv, nth_error bs (fst j) = Some b /\ current_rung_and_level b = Ok (sl, lv) /\
+    rung_index (snd j) = current_rung b /\ (slot_index (snd j) < first_free_pos b)%nat /\
+    level (snd j) = lv /\ nth_error sl (slot_index (snd j)) = Some (None, None) /\
+    trial_id (snd j) = None.
+
+Definition job_key (j : job) : nat * nat := (fst j, slot_index (snd j)).
+
+Record DInv (rss : list rung_system) (md : mode) (st : dstate) : Prop := mkDInv {
+  di_rs : m_rs (d_mgr st) = rss;
+  di_mode : m_mode (d_mgr st) = md;
+  di_off : m_offsets (d_mgr st) =
+           map (fun j => (j mod length rss)%nat) (seq 0 (length (m_brackets (d_mgr st))));
+  di_prim : (m_primary (d_mgr st) < length (m_brackets (d_mgr st)))%nat;
+  di_lt : forall j b, nth_error (m_brackets (d_mgr st)) j = Some b -> (j < m_primary (d_mgr st))%nat ->
+          is_bracket_complete b = true;
+  di_pc : forall b, nth_error (m_brackets (d_mgr st)) (m_primary (d_mgr st)) = Some b ->
+          is_bracket_complete b = false;
+  di_b : forall j b, nth_error (m_brackets (d_mgr st)) j = Some b -> DB (nth (j mod length rss) rss []) md b;
+  di_out : Forall (out_ok (m_brackets (d_mgr st))) (d_out st);
+  di_keys : NoDup (map job_key (d_out st)) }.
+
+Lemma mkDInv' : forall rss md bs offs p O,
+  offs = map (fun j => (j mod length rss)%nat) (seq 0 (length bs)) -> (p < length bs)%nat ->
+  (forall j b, nth_error bs j = Some b -> (j < p)%nat -> is_bracket_complete b = true) ->
+  (forall b, nth_error bs p = Some b -> is_bracket_complete b = false) ->
+  (forall j b, nth_error bs j = Some b -> DB (nth (j mod length rss) rss []) md b) ->
+  Forall (out_ok bs) O -> NoDup (map job_key O) ->
+  DInv rss md (mkD (mkM rss md bs offs p) O).
+Proof. intros. constructor; auto. Qed.
+
+Lemma dcreate_ok : forall rss md bs offs p,
+  offs = map (fun j => (j mod length rss)%nat) (seq 0 (length bs)) ->
+  dehb_create_new_bracket (mkM rss md bs offs p) =
+    Ok (mkM rss md (bs ++ [dehb_new_bracket (nth (length bs mod length rss) rss []) md])
+            (offs ++ [(length bs mod length rss)%nat]) p, length bs) /\
+  offs ++ [(length bs mod length rss)%nat] =
+    map (fun j => (j mod length rss)%nat) (seq 0 (length (bs ++ [dehb_new_bracket (nth (length bs mod length rss) rss []) md]))).
+Proof.
+  intros rss md bs offs p E. unfold dehb_create_new_bracket. cbn [m_brackets m_offsets m_rs m_mode m_primary].
+  replace (Nat.eqb (length bs) (length offs)) with true.
+  2:{ symmetry. apply Nat.eqb_eq. rewrite E, map_length, seq_length. reflexivity. }
+  split; [reflexivity|]. rewrite E, app_length. simpl. rewrite Nat.add_1_r, seq_snoc, map_app. reflexivity.
+Qed.
+
+Lemma out_ok_ext : forall bs bs' j, out_ok bs j ->
+  (forall k b, nth_error bs k = Some b -> nth_error bs' k = Some b) -> out_ok bs' j.
+Proof.
+  intros bs bs' j [b [sl [lv [N R]]]] Ext. exists b, sl, lv. split; [apply Ext; exact N|exact R].
+Qed.
+
+Lemma dnew_facts : forall sys md, check_rungs sys = true ->
+  exists sl lv, current_rung_and_level (dehb_new_bracket sys md) = Ok (sl, lv) /\
+    nth_error sl 0 = Some (None, None) /\ first_free_pos (dehb_new_bracket sys md) = 0%nat /\
+    current_rung (dehb_new_bracket sys md) = 0%nat /\
+    is_bracket_complete (dehb_new_bracket sys md) = false /\
+    next_free_slot (dehb_new_bracket sys md) =
+      Ok (bump (dehb_new_bracket sys md), Some (mkSIR 0 lv 0 None None)).
+Proof.
+  intros sys md CK. destruct (check_rungs_spec _ CK) as [NE [Pos _]].
+  destruct sys as [|[size lv] rest]; [congruence|].
+  assert (1 <= size)%nat by (apply (Pos 0%nat size lv); reflexivity).
+  destruct size as [|size]; [lia|].
+  exists (repeat (None, None) (S size)), lv. repeat split.
+Qed.
+
+(* a request for work on the DEHB manager *)
+Lemma dnext_inv : forall rss md st, rss_ok rss -> DInv rss md st ->
+  exists m' bid s, dehb_next_job (d_mgr st) = Ok (m', (bid, s)) /\
+    DInv rss md (mkD m' (d_out st ++ [(bid, s)])) /\ trial_id s = None /\
+    (m_primary (d_mgr st) <= bid)%nat /\
+    ((length (m_brackets m') = length (m_brackets (d_mgr st)) /\ (bid < length (m_brackets (d_mgr st)))%nat /\
+      (exists b, nth_error (m_brackets (d_mgr st)) bid = Some b /\ has_free_slot b = true) /\
+      (forall j bj, (m_primary (d_mgr st) <= j < bid)%nat -> nth_error (m_brackets (d_mgr st)) j = Some bj ->
+                    has_free_slot bj = false))
+     \/ (length (m_brackets m') = S (length (m_brackets (d_mgr st))) /\ bid = length (m_brackets (d_mgr st)) /\
+         forall j b, (m_primary (d_mgr st) <= j)%nat -> nth_error (m_brackets (d_mgr st)) j = Some b ->
+                     has_free_slot b = false)).
+Proof.
+  intros rss md [[rs md0 bs offs p] O] OK I.
+  destruct I as [I1 I2 I3 I4 I5 I6 I7 I8 I9]. cbn [d_mgr d_out m_rs m_mode m_brackets m_offsets m_primary] in *.
+  subst rs md0. assert (OK' := OK). destruct OK' as [NE CKs].
+  (* handing out slot [ffp] of bracket [i] of [bs1] *)
+  assert (Hand : forall bs1 offs1 i b sl lv t0,
+     (forall j bj, nth_error bs1 j = Some bj -> DB (nth (j mod length rss) rss []) md bj) ->
+     Forall (out_ok bs1) O ->
+     nth_error bs1 i = Some b -> current_rung_and_level b = Ok (sl, lv) ->
+     nth_error sl (first_free_pos b) = Some (t0, None) -> (p <= i)%nat ->
+     offs1 = map (fun j => (j mod length rss)%nat) (seq 0 (length bs1)) -> (length bs <= length bs1)%nat ->
+     (forall bj, nth_error bs1 p = Some bj -> is_bracket_complete bj = false) ->
+     (forall j bj, nth_error bs1 j = Some bj -> (j < p)%nat -> is_bracket_complete bj = true) ->
+     t0 = None /\
+     DInv rss md (mkD (mkM rss md (upd bs1 i (bump b)) offs1 p)
+                      (O ++ [(i, mkSIR (current_rung b) lv (first_free_pos b) t0 None)]))).
+  { intros bs1 offs1 i b sl lv t0 DB1 O1 Nb C Ns Pi Offs1 Lbs1 PC1 LT1.
+    assert (Bb := DB1 _ _ Nb). assert (CO := db_cur_ok _ _ _ _ _ Bb C).
+    assert (X := dco_free _ _ CO _ _ (le_n _) Ns). inversion X; subst t0. split; [reflexivity|].
+    assert (Li : (i < length bs1)%nat) by (eapply nth_error_lt; eauto).
+    assert (Ls : (first_free_pos b < length sl)%nat) by (eapply nth_error_lt; eauto).
+    destruct (crl_inv _ _ _ C) as [_ NC].
+    apply mkDInv'.
+    - rewrite upd_length. exact Offs1.
+    - rewrite upd_length. lia.
+    - intros j bj H Hj. apply nth_error_upd in H. destruct H as [[<- ->]|[_ H]]; [lia|eauto].
+    - intros bj H. apply nth_error_upd in H. destruct H as [[<- ->]|[_ H]]; [exact NC|eauto].
+    - intros j bj H. apply nth_error_upd in H. destruct H as [[<- ->]|[_ H]]; [eapply db_bump; eauto|eauto].
+    - apply Forall_app. split.
+      + eapply Forall_impl; [|exact O1]. intros [bid s] [b2 [sl2 [lv2 [N2 [C2 [E1 [E2 R]]]]]]].
+        cbn [fst snd] in *. destruct (Nat.eq_dec bid i) as [->|NEq].
+        * rewrite Nb in N2. inversion N2; subst b2. exists (bump b), sl2, lv2. cbn [fst snd].
+          split; [apply nth_error_upd_eq; exact Li|]. split; [exact C2|]. split; [exact E1|]. split; [simpl; lia|exact R].
+        * exists b2, sl2, lv2. cbn [fst snd]. split; [rewrite nth_error_upd_neq by congruence; exact N2|auto].
+      + constructor; [|constructor]. exists (bump b), sl, lv. cbn [fst snd rung_index slot_index level trial_id].
+        split; [apply nth_error_upd_eq; exact Li|]. split; [exact C|]. split; [reflexivity|]. split; [simpl; lia|].
+        split; [reflexivity|]. split; [exact Ns|reflexivity].
+    - rewrite map_app. simpl. apply nodup_app_intro; [exact I9|constructor; [simpl; tauto|constructor]|].
+      intros k Hk [<-|[]]. apply in_map_iff in Hk. destruct Hk as [[bid s] [Ek Hin]].
+      unfold job_key in Ek. cbn [fst snd slot_index] in Ek. inversion Ek; subst.
+      rewrite Forall_forall in O1. destruct (O1 _ Hin) as [b2 [sl2 [lv2 [N2 [C2 [E1 [E2 R]]]]]]]. cbn [fst snd] in *.
+      rewrite Nb in N2. inversion N2; subst b2. lia. }
+  unfold dehb_next_job. cbn [m_rs m_mode m_brackets m_offsets m_primary].
+  destruct (try_spec_gen bs (length bs - p) p) as [[E NoFree]|[i [b [sl [lv [t0 [Ii [Nb [C [Ns [HF [Low E]]]]]]]]]]]].
+  { intros i Hi. destruct (nth_error bs i) as [b|] eqn:Nb.
+    - exists b. split; [reflexivity|]. eapply nfs_db. eapply I7; eauto.
+    - apply nth_error_None in Nb. lia. }
+  - rewrite E. destruct (dcreate_ok rss md bs offs p I3) as [CE CO]. rewrite CE.
+    cbn [m_rs m_mode m_brackets m_offsets m_primary].
+    set (sys := nth (length bs mod length rss) rss []) in *.
+    assert (CK : check_rungs sys = true) by (apply CKs, mod_lt_len, NE).
+    set (nb := dehb_new_bracket sys md) in *.
+    assert (Nnb : nth_error (bs ++ [nb]) (length bs) = Some nb).
+    { rewrite nth_error_app2 by lia. rewrite Nat.sub_diag. reflexivity. }
+    rewrite Nnb.
+    destruct (dnew_facts sys md CK) as [sl [lv [C [Ns [F0 [C0 [NC Enfs]]]]]]]. fold nb in C, Ns, F0, C0, NC, Enfs. rewrite Enfs.
+    assert (H1 : forall j bj, nth_error (bs ++ [nb]) j = Some bj -> DB (nth (j mod length rss) rss []) md bj).
+    { intros j bj H. apply nth_error_snoc in H. destruct H as [[_ H]|[-> ->]]; [eauto|]. apply db_new. exact CK. }
+    assert (H2 : Forall (out_ok (bs ++ [nb])) O).
+    { eapply Forall_impl; [|exact I8]. intros j Hj. eapply out_ok_ext; [exact Hj|].
+      intros k bk Hk. rewrite nth_error_app1; [exact Hk|eapply nth_error_lt; eauto]. }
+    assert (H3 : nth_error sl (first_free_pos nb) = Some (None, None)) by (rewrite F0; exact Ns).
+    assert (H4 : (length bs <= length (bs ++ [nb]))%nat) by (rewrite app_length; simpl; lia).
+    assert (H5 : forall bj, nth_error (bs ++ [nb]) p = Some bj -> is_bracket_complete bj = false).
+    { intros bj H. rewrite nth_error_app1 in H by lia. eauto. }
+    assert (H6 : forall j bj, nth_error (bs ++ [nb]) j = Some bj -> (j < p)%nat -> is_bracket_complete bj = true).
+    { intros j bj H Hj. rewrite nth_error_app1 in H by lia. eauto. }
+    destruct (Hand (bs ++ [nb]) (offs ++ [(length bs mod length rss)%nat]) (length bs) nb sl lv None
+                H1 H2 Nnb C H3 (Nat.lt_le_incl _ _ I4) CO H4 H5 H6) as [_ DI].
+    rewrite F0, C0 in DI. eexists _, _, _. split; [reflexivity|]. split; [exact DI|]. split; [reflexivity|]. split; [lia|].
+    right. cbn [m_brackets set_brackets]. rewrite upd_length, app_length. simpl. split; [lia|]. split; [reflexivity|].
+    intros j bj Hj Nj. eapply NoFree; eauto. apply nth_error_lt in Nj. lia.
+  - rewrite E. assert (Pi : (p <= i)%nat) by lia.
+    destruct (Hand bs offs i b sl lv t0 I7 I8 Nb C Ns Pi I3 (le_n _) I6 I5) as [-> DI].
+    eexists _, _, _. split; [reflexivity|]. split; [exact DI|]. split; [reflexivity|]. split; [lia|].
+    left. cbn [m_brackets set_brackets]. rewrite upd_length. split; [reflexivity|]. split; [eapply nth_error_lt; eauto|].
+    split; [eauto|exact Low].
+Qed.
+
+Lemma remove_nth_split : forall {A} (l : list A) k e, nth_error l k = Some e ->
+  exists l1 l2, l = l1 ++ e :: l2 /\ remove_nth l k = l1 ++ l2.
+Proof.
+  induction l as [|x l IH]; intros [|k] e H; simpl in *; try discriminate.
+  - inversion H; subst. exists [], l. auto.
+  - destruct (IH _ _ H) as [l1 [l2 [E1 E2]]]. exists (x :: l1), l2. simpl. rewrite <- E1, E2. auto.
+Qed.
+
+(* an outstanding DEHB job returns *)
+Lemma dret_inv : forall rss md st k bid s t v, rss_ok rss -> DInv rss md st ->
+  nth_error (d_out st) k = Some (bid, s) ->
+  exists m' out, dehb_mgr_on_result (d_mgr st) bid
+                   (mkSIR (rung_index s) (level s) (slot_index s) (Some t) (Some v)) = Ok (m', out) /\
+    DInv rss md (mkD m' (remove_nth (d_out st) k)).
+Proof.
+  intros rss md [[rs md0 bs offs p] O] k bid s t v OK I Hk.
+  destruct I as [I1 I2 I3 I4 I5 I6 I7 I8 I9]. cbn [d_mgr d_out m_rs m_mode m_brackets m_offsets m_primary] in *.
+  subst rs md0. assert (OK' := OK). destruct OK' as [NE CKs].
+  destruct (remove_nth_split _ _ _ Hk) as [O1 [O2 [EO ER]]]. rewrite ER.
+  assert (Hin : In (bid, s) O) by (eapply nth_error_In; eauto).
+  rewrite Forall_forall in I8.
+  destruct (I8 _ Hin) as [b [sl [lv [Nb [C [E1 [E2 [E3 [E4 E5]]]]]]]]]. cbn [fst snd] in *.
+  destruct (crl_inv _ _ _ C) as [Nth NC].
+  assert (Lb : (bid < length bs)%nat) by (eapply nth_error_lt; eauto).
+  assert (Pb : (p <= bid)%nat).
+  { destruct (Nat.le_gt_cases p bid) as [X|X]; [exact X|]. rewrite (I5 _ _ Nb X) in NC. discriminate. }
+  assert (Bb := I7 _ _ Nb).
+  set (r := mkSIR (rung_index s) (level s) (slot_index s) (Some t) (Some v)).
+  destruct (dbor_ok b r sl lv None v C E1 E2 E3 E4 eq_refl) as [b' [out R]].
+  assert (Bb' : DB (nth (bid mod length rss) rss []) md b') by (eapply db_answer; eauto; reflexivity).
+  destruct (dbor_inv _ _ _ _ _ _ C R) as [_ [_ [_ [_ [v' [MV' Cases]]]]]].
+  simpl in MV'. inversion MV'; subst v'. clear MV'. cbv zeta in Cases. simpl trial_id in Cases. simpl slot_index in Cases.
+  set (sl' := upd sl (slot_index s) (Some t, Some v)) in *.
+  assert (Lc : (current_rung b < length (rungs b))%nat) by (eapply nth_error_lt; eauto).
+  assert (Shape : (is_full sl' (first_free_pos b) = false /\ current_rung_and_level b' = Ok (sl', lv) /\
+                   first_free_pos b' = first_free_pos b /\ current_rung b' = current_rung b)
+                  \/ is_full sl' (first_free_pos b) = true).
+  { destruct Cases as [[F [-> _]]|[F _]]; [left|right; exact F].
+    split; [exact F|]. split; [|split; reflexivity]. apply crl_of_nth. cbn [rungs current_rung].
+    apply nth_error_upd_eq. exact Lc. }
+  set (bs' := upd bs bid b') in *.
+  assert (Lbs' : length bs' = length bs) by apply upd_length.
+  assert (Nb' : nth_error bs' bid = Some b') by (apply nth_error_upd_eq; exact Lb).
+  assert (CompOther : forall j bj, j <> bid -> nth_error bs' j = Some bj -> nth_error bs j = Some bj).
+  { intros j bj NEq H. unfold bs' in H. rewrite nth_error_upd_neq in H by congruence. exact H. }
+  assert (DBs' : forall j bj, nth_error bs' j = Some bj -> DB (nth (j mod length rss) rss []) md bj).
+  { intros j bj H. unfold bs' in H. apply nth_error_upd in H. destruct H as [[<- ->]|[_ H]]; eauto. }
+  (* the other outstanding jobs *)
+  assert (Keys : NoDup (map job_key (O1 ++ O2)) /\ forall j, In j (O1 ++ O2) -> In j O /\ job_key j <> job_key (bid, s)).
+  { rewrite EO, map_app in I9. simpl in I9. split.
+    - rewrite map_app. eapply NoDup_remove_1; eauto.
+    - intros j Hj. split; [rewrite EO; apply in_app_or in Hj; apply in_or_app; simpl; tauto|].
+      intro Ek. apply NoDup_remove_2 in I9. apply I9. rewrite <- Ek, <- map_app. apply in_map. exact Hj. }
+  destruct Keys as [Keys1 Keys2].
+  assert (Out' : Forall (out_ok bs') (O1 ++ O2)).
+  { apply Forall_forall. intros [bid2 s2] Hj. destruct (Keys2 _ Hj) as [Hin2 NK].
+    destruct (I8 _ Hin2) as [b2 [sl2 [lv2 [N2 [C2 [F1 [F2 [F3 [F4 F5]]]]]]]]]. cbn [fst snd] in *.
+    destruct (Nat.eq_dec bid2 bid) as [->|NEq].
+    - rewrite Nb in N2. inversion N2; subst b2. rewrite C in C2. inversion C2; subst sl2 lv2.
+      assert (NEp : slot_index s2 <> slot_index s).
+      { intro X. apply NK. unfold job_key. cbn [fst snd]. rewrite X. reflexivity. }
+      assert (Sl2 : nth_error sl' (slot_index s2) = Some (None, None)).
+      { unfold sl'. rewrite nth_error_upd_neq by congruence. exact F4. }
+      destruct Shape as [[F [C' [FF CR]]]|F].
+      + exists b', sl', lv. cbn [fst snd]. repeat split; auto; congruence.
+      + exfalso. destruct (is_full_spec _ _ F) as [_ Occ]. apply nth_error_In in Sl2. apply (Occ _ Sl2). reflexivity.
+    - exists b2, sl2, lv2. cbn [fst snd]. split; [unfold bs'; rewrite nth_error_upd_neq by congruence; exact N2|auto]. }
+  unfold dehb_mgr_on_result. cbn [m_rs m_mode m_brackets m_offsets m_primary].
+  replace (Nat.leb p bid && Nat.ltb bid (length bs)) with true
+    by (symmetry; apply andb_true_iff; split; [apply Nat.leb_le|apply Nat.ltb_lt]; lia).
+  cbn [negb]. rewrite Nb. fold r. rewrite R. fold bs'.
+  assert (Offs' : offs = map (fun j => (j mod length rss)%nat) (seq 0 (length bs'))) by (rewrite Lbs'; exact I3).
+  destruct (Nat.eqb bid p) eqn:Ep.
+  - apply Nat.eqb_eq in Ep. subst bid.
+    destruct (advance_spec (length bs) bs' p (length bs - 1)) as [A [Bc Cl]]; try lia.
+    set (p' := advance_primary (length bs) bs' p (length bs - 1)) in *.
+    destruct (nth_error bs' p') as [bp|] eqn:Np.
+    2:{ apply nth_error_None in Np. lia. }
+    assert (Below : forall j bj, nth_error bs' j = Some bj -> (j < p')%nat -> is_bracket_complete bj = true).
+    { intros j bj Nj Hj. destruct (Nat.lt_ge_cases j p) as [X|X].
+      - eapply I5; [|exact X]. apply CompOther; [lia|exact Nj].
+      - eapply Bc; [|exact Nj]. lia. }
+    destruct (is_bracket_complete bp) eqn:Cp.
+    + assert (p' = length bs - 1)%nat by (eapply Cl; eauto).
+      destruct (dcreate_ok rss md bs' offs p' Offs') as [CE CO].
+      unfold set_primary, set_brackets. cbn [m_rs m_mode m_brackets m_offsets m_primary]. rewrite CE.
+      set (sys := nth (length bs' mod length rss) rss []) in *.
+      assert (CK : check_rungs sys = true) by (apply CKs, mod_lt_len, NE).
+      eexists _, _. split; [reflexivity|]. cbn [m_rs m_mode m_brackets m_offsets m_primary].
+      apply mkDInv'.
+      * exact CO.
+      * rewrite app_length. simpl. lia.
+      * intros j bj Hn Hj. rewrite nth_error_app1 in Hn by lia.
+        destruct (Nat.eq_dec j p') as [->|NEq]; [congruence|]. eapply Below; eauto. lia.
+      * intros bj Hn. rewrite nth_error_app2 in Hn by lia. rewrite Nat.sub_diag in Hn. simpl in Hn.
+        inversion Hn. destruct (dnew_facts sys md CK) as [_ [_ [_ [_ [_ [_ [X _]]]]]]]. exact X.
+      * intros j bj H0. apply nth_error_snoc in H0. destruct H0 as [[_ H0]|[-> ->]]; [eauto|]. apply db_new. exact CK.
+      * eapply Forall_impl; [|exact Out']. intros j Hj. eapply out_ok_ext; [exact Hj|].
+        intros k0 bk Hk0. rewrite nth_error_app1; [exact Hk0|eapply nth_error_lt; eauto].
+      * exact Keys1.
+    + unfold set_primary, set_brackets. cbn [m_rs m_mode m_brackets m_offsets m_primary].
+      eexists _, _. split; [reflexivity|].
+      apply mkDInv'; [exact Offs'|lia|exact Below|intros bj Hn; congruence|exact DBs'|exact Out'|exact Keys1].
+  - apply Nat.eqb_neq in Ep. unfold set_brackets. cbn [m_rs m_mode m_brackets m_offsets m_primary].
+    eexists _, _. split; [reflexivity|].
+    apply mkDInv'; [exact Offs'|lia| | |exact DBs'|exact Out'|exact Keys1].
+    + intros j bj Hn Hj. eapply I5; [|exact Hj]. apply CompOther; [lia|exact Hn].
+    + intros bj Hn. apply I6. apply CompOther; [lia|exact Hn].
+Qed.
+
+Lemma dstep_inv : forall rss md st o, rss_ok rss -> DInv rss md st ->
+  exists st', dstep st o = Ok st' /\ DInv rss md st'.
+Proof.
+  intros rss md st o OK I. destruct o as [|i t v]; simpl.
+  - destruct (dnext_inv _ _ _ OK I) as [m' [bid [s [E [I' _]]]]]. rewrite E. eauto.
+  - destruct (d_out st) as [|j0 O'] eqn:EO; [eauto|]. rewrite <- EO.
+    assert (Lk : (i mod length (d_out st) < length (d_out st))%nat).
+    { apply Nat.mod_upper_bound. rewrite EO. simpl. lia. }
+    destruct (nth_error (d_out st) (i mod length (d_out st))) as [[bid s]|] eqn:Hk.
+    2:{ apply nth_error_None in Hk. lia. }
+    destruct (dret_inv _ _ _ _ _ _ t v OK I Hk) as [m' [out [E I']]]. rewrite E. eauto.
+Qed.
+
+Lemma drun_inv : forall rss md ops st, rss_ok rss -> DInv rss md st ->
+  exists st', drun st ops = Ok st' /\ DInv rss md st'.
+Proof.
+  intros rss md. induction ops as [|o ops IH]; intros st OK I; simpl; [eauto|].
+  destruct (dstep_inv _ _ _ o OK I) as [st1 [E I1]]. rewrite E. apply IH; assumption.
+Qed.
+
+(* the rung systems of a DEHB manager: suffixes of the first bracket's *)
+Definition dehb_rss (first : rung_system) (nb : option nat) : list rung_system :=
+  dehb_bracket_rungs first (match nb with Some k => k | None => length first end).
+
+Lemma dinit_inv : forall first md nb m, dehb_mgr_init first md nb = Ok m ->
+  rss_ok (dehb_rss first nb) /\ DInv (dehb_rss first nb) md (mkD m []).
+Proof.
+  intros first md nb m H. unfold dehb_mgr_init in H. fold (dehb_rss first nb) in H.
+  destruct (Nat.eqb (length first) 0); [discriminate|].
+  destruct (negb _); [discriminate|].
+  set (rss := dehb_rss first nb) in *.
+  destruct (check_bracket_rungs rss) eqn:CK; [|discriminate].
+  assert (OK := check_bracket_rungs_ok _ CK). split; [exact OK|]. destruct OK as [NE CKs].
+  destruct (dcreate_ok rss md [] [] 0 eq_refl) as [CE CO]. rewrite CE in H. inversion H; subst m. cbn [length] in *.
+  set (sys := nth (0 mod length rss) rss []) in *.
+  assert (CKsys : check_rungs sys = true) by (apply CKs, mod_lt_len, NE).
+  unfold set_primary. cbn [m_rs m_mode m_brackets m_offsets m_primary app].
+  apply mkDInv'; auto.
+  - intros j b H0 Hj. lia.
+  - intros b H0. simpl in H0. inversion H0. destruct (dnew_facts sys md CKsys) as [_ [_ [_ [_ [_ [_ [X _]]]]]]]. exact X.
+  - intros j b H0. destruct j as [|j]; simpl in H0; [|destruct j; discriminate]. inversion H0. apply db_new. exact CKsys.
+  - constructor.
+Qed.
+
+Theorem drun_from_inv : forall first md nb ops m0, dehb_mgr_init first md nb = Ok m0 ->
+  exists st, drun_from first md nb ops = Ok st /\ DInv (dehb_rss first nb) md st /\ rss_ok (dehb_rss first nb).
+Proof.
+  intros first md nb ops m0 H. unfold drun_from. rewrite H. destruct (dinit_inv _ _ _ _ H) as [OK I].
+  destruct (drun_inv _ _ ops _ OK I) as [st [E I']]. eauto.
+Qed.
+
+Theorem dehb_no_error : forall first md nb ops m0, dehb_mgr_init first md nb = Ok m0 ->
+  exists st, drun_from first md nb ops = Ok st.
+Proof. intros. destruct (drun_from_inv _ _ _ ops _ H) as [st [E _]]. eauto. Qed.
+
+Lemma dreach : forall first md nb ops m0 st, dehb_mgr_init first md nb = Ok m0 ->
+  drun_from first md nb ops = Ok st -> DInv (dehb_rss first nb) md st /\ rss_ok (dehb_rss first nb).
+Proof.
+  intros first md nb ops m0 st H E. destruct (drun_from_inv _ _ _ ops _ H) as [st' [E' [I OK]]].
+  rewrite E in E'. inversion E'; subst. auto.
+Qed.
+
+Theorem dehb_rungs_filled : forall first md nb ops m0 st, dehb_mgr_init first md nb = Ok m0 ->
+  drun_from first md nb ops = Ok st ->
+  length (m_offsets (d_mgr st)) = length (m_brackets (d_mgr st)) /\
+  forall j b, nth_error (m_brackets (d_mgr st)) j = Some b ->
+    let rss := dehb_rss first nb in
+    nth_error (m_offsets (d_mgr st)) j = Some (j mod length rss)%nat /\
+    map entry_shape (rungs b) = nth (j mod length rss) rss [] /\
+    (forall k sl lv, (k < current_rung b)%nat -> nth_error (rungs b) k = Some (Filled sl lv) ->
+       Forall (fun s => exists t v, s = (Some t, Some v)) sl) /\
+    (forall k sl lv, (current_rung b < k)%nat -> nth_error (rungs b) k = Some (Filled sl lv) ->
+       Forall (fun s => s = (None, None)) sl).
+Proof.
+  intros first md nb ops m0 st H E. destruct (dreach _ _ _ _ _ _ H E) as [I _].
+  rewrite (di_off _ _ _ I). split; [rewrite map_length, seq_length; reflexivity|].
+  intros j b Nb rss. assert (B := di_b _ _ _ I _ _ Nb).
+  split; [apply (nth_error_map_seq (fun j0 => (j0 mod length (dehb_rss first nb))%nat)); eapply nth_error_lt; eauto|].
+  split; [exact (db_sys _ _ _ B)|]. split; [exact (db_done _ _ _ B)|].
+  intros k sl lv Hk N. exact (proj2 (db_fut _ _ _ B _ _ _ Hk N)).
+Qed.
+
+Theorem dehb_never_blocks : forall first md nb ops m0 st, dehb_mgr_init first md nb = Ok m0 ->
+  drun_from first md nb ops = Ok st ->
+  exists m' bid s, dehb_next_job (d_mgr st) = Ok (m', (bid, s)) /\ trial_id s = None /\
+    (m_primary (d_mgr st) <= bid)%nat /\
+    ((length (m_brackets m') = length (m_brackets (d_mgr st)) /\ (bid < length (m_brackets (d_mgr st)))%nat /\
+      (exists b, nth_error (m_brackets (d_mgr st)) bid = Some b /\ has_free_slot b = true) /\
+      (forall j bj, (m_primary (d_mgr st) <= j < bid)%nat -> nth_error (m_brackets (d_mgr st)) j = Some bj ->
+                    has_free_slot bj = false))
+     \/ (length (m_brackets m') = S (length (m_brackets (d_mgr st))) /\ bid = length (m_brackets (d_mgr st)) /\
+         forall j b, (m_primary (d_mgr st) <= j)%nat -> nth_error (m_brackets (d_mgr st)) j = Some b ->
+                     has_free_slot b = false)).
+Proof.
+  intros first md nb ops m0 st H E. destruct (dreach _ _ _ _ _ _ H E) as [I OK].
+  destruct (dnext_inv _ _ _ OK I) as [m' [bid [s [E1 [_ [T [Pb Cases]]]]]]]. exists m', bid, s. auto.
+Qed.
+
+(* top_of_previous_rung lists the top list of the rung below the current one *)
+Theorem dehb_top_of_previous_rung : forall first md nb ops m0 st bid b sl lv,
+  dehb_mgr_init first md nb = Ok m0 -> drun_from first md nb ops = Ok st ->
+  nth_error (m_brackets (d_mgr st)) bid = Some b -> current_rung_and_level b = Ok (sl, lv) ->
+  (0 < current_rung b)%nat ->
+  exists prev lvp vals top rest,
+    nth_error (rungs b) (current_rung b - 1) = Some (Filled prev lvp) /\
+    occupied_values prev = Some vals /\
+    get_top_list md vals (length sl) = (top, rest) /\
+    (length sl <= length vals)%nat /\ length top = length sl /\
+    top_list_for_previous_rung b = Ok top /\
+    forall pos t, nth_error top pos = Some t -> top_of_previous_rung (d_mgr st) bid pos = Ok t.
+Proof.
+  intros first md nb ops m0 st bid b sl lv H E Nb C Hc. destruct (dreach _ _ _ _ _ _ H E) as [I [NE CKs]].
+  assert (B := di_b _ _ _ I _ _ Nb). destruct (crl_inv _ _ _ C) as [Nth _].
+  assert (Lc : (current_rung b < length (rungs b))%nat) by (eapply nth_error_lt; eauto).
+  destruct (nth_error (rungs b) (current_rung b - 1)) as [e|] eqn:Np.
+  2:{ apply nth_error_None in Np. lia. }
+  destruct (db_filled _ _ _ B _ _ Np) as [prev [lvp ->]].
+  assert (Occ := db_done _ _ _ B (current_rung b - 1)%nat prev lvp ltac:(lia) Np).
+  destruct (occupied_values_all prev) as [vals [OV [MF _]]].
+  { rewrite Forall_forall in Occ. intros s Hs. destruct (Occ _ Hs) as [t [v ->]]. discriminate. }
+  destruct (occupied_values_some _ _ OV) as [_ LV].
+  assert (CK : check_rungs (nth (bid mod length (dehb_rss first nb)) (dehb_rss first nb) []) = true) by (apply CKs, mod_lt_len, NE).
+  destruct (check_rungs_spec _ CK) as [_ [_ Dec]].
+  assert (Lt : (length sl < length prev)%nat).
+  { eapply (Dec (current_rung b - 1)%nat).
+    - rewrite <- (db_sys _ _ _ B), nth_error_map, Np. reflexivity.
+    - replace (S (current_rung b - 1)) with (current_rung b) by lia.
+      rewrite <- (db_sys _ _ _ B), nth_error_map, Nth. reflexivity. }
+  destruct (get_top_list md vals (length sl)) as [top rest] eqn:G.
+  destruct (get_top_list_sub _ _ _ _ _ G) as [LT _]; [lia|].
+  assert (TL : top_list_for_previous_rung b = Ok top).
+  { unfold top_list_for_previous_rung, size_of_current_rung.
+    replace (Nat.eqb (current_rung b) 0) with false by (symmetry; apply Nat.eqb_neq; lia).
+    rewrite Np, C, OV, (db_mode _ _ _ B), G. reflexivity. }
+  exists prev, lvp, vals, top, rest. repeat split; auto; try lia.
+  intros pos t Ht. unfold top_of_previous_rung. rewrite Nb, TL, Ht. reflexivity.
+Qed.
+
+(* The parent-slot lookup of the code is NOT total: with fewer brackets per iteration than rung
+   levels the stored bracket delta is <= 0.  Witness: 3 rung levels, 1 bracket per iteration; after
+   13 jobs the next job (bracket 1, rung 2) has no parent bracket: IndexError. *)
+Definition dehb_witness_first : rung_system := [(4%nat, 1%Z); (2%nat, 2%Z); (1%nat, 3%Z)].
+Definition dehb_witness_ops : list dop :=
+  flat_map (fun t => [DNext; DRet 0 (Z.of_nat t) (Val (inject_Z (Z.of_nat t)))]) (seq 0 13) ++ [DNext].
+
+Theorem dehb_parent_slot_refuted :
+  exists first md nb ops st bid s,
+    drun_from first md nb ops = Ok st /\ In (bid, s) (d_out st) /\
+    trial_id_from_parent_slot (d_mgr st) bid (level s) (slot_index s) = Error EInternal.
+Proof.
+  exists dehb_witness_first, Min, (Some 1%nat), dehb_witness_ops.
+  destruct (drun_from dehb_witness_first Min (Some 1%nat) dehb_witness_ops) as [st|e] eqn:E; vm_compute in E; [|discriminate].
+  inversion E; subst st. eexists _, _, _. split; [reflexivity|]. split; [left; reflexivity|]. vm_compute. reflexivity.
+Qed.
